@@ -222,7 +222,7 @@ def l_utcnow(ex, st, pos, kw, node, star, dstar):
 
 def l_uuid1(ex, st, pos, kw, node, star, dstar):
     used('A14 uuid.uuid1().hex is a fresh 32-character hex string')
-    o = st.alloc('object'); h = fresh('uuid', Str); st.assume(z3.Length(h) == 32); st.assume(z3.Not(z3.Contains(h, z3.StringVal('/'))))
+    o = st.alloc('object'); h = fresh('uuid', Str); st.assume(z3.Length(h) == 32)
     st.wr(o, 'hex', Val.s(h)); st.g.setdefault('uuids', []).append(h); return val(st, o)
 
 
@@ -298,10 +298,14 @@ def s_endswith(ex, st, recv, pos, kw, node, star, dstar):
     return outs
 
 
+REPLALL = z3.Function('replace_all', Str, Str, Str, Str)      # str.replace(old, new): all occurrences (kept abstract; two defining facts are instantiated)
+
+
 def s_replace(ex, st, recv, pos, kw, node, star, dstar):
-    # str.replace(old, new) replaces ALL occurrences (z3's str.replace_all)
-    ra = z3.Function('str.replace_all', Str, Str, Str, Str) if not hasattr(z3, 'ReplaceAll') else None
-    r = z3.ReplaceAll(Val.sv(recv), Val.sv(pos[0]), Val.sv(pos[1])) if ra is None else ra(Val.sv(recv), Val.sv(pos[0]), Val.sv(pos[1]))
+    s, a, b = Val.sv(recv), Val.sv(pos[0]), Val.sv(pos[1])
+    r = REPLALL(s, a, b)
+    st.assume(z3.Implies(z3.Not(z3.Contains(s, a)), r == s))                                  # nothing to replace
+    st.assume(z3.Implies(z3.And(z3.Length(a) > 0, z3.Not(z3.Contains(b, a))), z3.Not(z3.Contains(r, a))))   # no occurrence is left
     return val(st, Val.s(r))
 
 
@@ -339,4 +343,103 @@ def install(ex):
                     'split': s_split})
     from . import libobj
     libobj.install(ex)
+    return ex
+
+
+# ------------------------------------------------------------------ regular expressions (constant patterns): Python re -> z3 regex
+def _re_to_z3(pattern, flags=0):
+    import re._parser as sp, re._constants as sc
+    tree = sp.parse(pattern, flags)
+    dotall = bool(flags & 16)
+    anych = z3.AllChar(z3.ReSort(Str)) if hasattr(z3, 'AllChar') else z3.Range(chr(0), chr(0x2FFFF))
+    nl = z3.Re(z3.StringVal('\n'))
+    state = {'end_anchor': False}
+
+    def cat(items):
+        rs = [tr(op, av) for op, av in items]
+        rs = [r for r in rs if r is not None]
+        if not rs: return z3.Re(z3.StringVal(''))
+        return rs[0] if len(rs) == 1 else z3.Concat(*rs)
+
+    def cls(op, av):
+        if op is sc.LITERAL: return z3.Re(z3.StringVal(chr(av)))
+        if op is sc.RANGE: return z3.Range(chr(av[0]), chr(av[1]))
+        if op is sc.CATEGORY:
+            if av is sc.CATEGORY_DIGIT: return z3.Range('0', '9')
+            if av is sc.CATEGORY_SPACE: return z3.Union(*[z3.Re(z3.StringVal(c)) for c in ' \t\n\r\f\v'])
+            if av is sc.CATEGORY_WORD: return z3.Union(z3.Range('a', 'z'), z3.Range('A', 'Z'), z3.Range('0', '9'), z3.Re(z3.StringVal('_')))
+        raise Unsupported('regex class item %s' % (op,))
+
+    def tr(op, av):
+        if op is sc.LITERAL: return z3.Re(z3.StringVal(chr(av)))
+        if op is sc.ANY: return anych if dotall else z3.Intersect(anych, z3.Complement(nl))
+        if op is sc.IN:
+            neg = av and av[0][0] is sc.NEGATE
+            items = [cls(o, a) for o, a in (av[1:] if neg else av)]
+            u = items[0] if len(items) == 1 else z3.Union(*items)
+            return z3.Intersect(anych, z3.Complement(u)) if neg else u
+        if op in (sc.MAX_REPEAT, sc.MIN_REPEAT):
+            lo, hi, sub_ = av; r = cat(sub_)
+            if hi is sc.MAXREPEAT:
+                return z3.Star(r) if lo == 0 else z3.Plus(r) if lo == 1 else z3.Concat(*([r] * lo + [z3.Star(r)]))
+            return z3.Loop(r, lo, hi)
+        if op is sc.SUBPATTERN: return cat(av[3])
+        if op is sc.BRANCH: return z3.Union(*[cat(b) for b in av[1]])
+        if op is sc.AT:
+            if av in (sc.AT_BEGINNING, sc.AT_BEGINNING_STRING): return None
+            if av in (sc.AT_END, sc.AT_END_STRING):
+                state['end_anchor'] = True; return None
+        if op is sc.CATEGORY: return cls(op, av)
+        raise Unsupported('regex construct %s' % (op,))
+    items = list(tree)
+    if any(op is sc.AT and av in (sc.AT_END, sc.AT_END_STRING) for op, av in items[:-1]):
+        raise Unsupported('regex with an inner end anchor')
+    return cat(items), state['end_anchor']
+
+
+def l_re_compile(ex, st, pos, kw, node, star, dstar):
+    p = z3.simplify(Val.sv(pos[0]))
+    if not z3.is_string_value(p):
+        raise Unsupported('re.compile of a non-constant pattern')
+    fl = 0
+    f = pos[1] if len(pos) > 1 else kw.get('flags')
+    if f is not None:
+        fv = z3.simplify(Val.iv(f))
+        if not z3.is_int_value(fv): raise Unsupported('re flags')
+        fl = fv.as_long()
+    used('A16 re: a constant pattern denotes the regular language given by the standard translation (match anchors at the start; $ = end of string, the optional trailing newline is ignored)')
+    o = st.alloc('Pattern'); st.g.setdefault('regex', {})[st.n] = _re_to_z3(p.as_string(), fl)
+    return val(st, o)
+
+
+def pattern_match(kind):
+    def m(ex, st, pos, kw, node, star, dstar):
+        pat, s = pos[0], pos[1]; a = st._aclass(st.addr_of(pat))
+        rx = st.g.get('regex', {}).get(a[1]) if a[0] == 'new' else None
+        if rx is None:
+            raise Unsupported('match on a pattern that was not compiled on this path')
+        r, end = rx; full = z3.Full(z3.ReSort(Str))
+        if kind == 'match' and not end: r = z3.Concat(r, full)
+        if kind == 'search': r = z3.Concat(full, r) if end else z3.Concat(full, r, full)
+        outs = []
+        sS, sBad = ex.fork(st, Val.is_s(s))
+        if sBad is not None: outs.append(ex.raise_(sBad, 'TypeError'))
+        if sS is not None:
+            sM, sN = ex.fork(sS, z3.InRe(Val.sv(s), r))
+            if sM is not None: outs.append((sM, ('val', sM.alloc('object'))))
+            if sN is not None: outs.append((sN, ('val', NONE)))
+        return outs
+    return m
+
+
+LAT.add('Pattern', ['object'])
+engine.OBJMETHODS |= {('Pattern', 'match'), ('Pattern', 'search'), ('Pattern', 'fullmatch')}
+engine.LIBCONST.update({'re.DOTALL': I(16), 're.S': I(16), 're.IGNORECASE': I(2), 're.MULTILINE': I(8)})
+_old_install = install
+
+
+def install(ex):   # noqa: F811
+    ex = _old_install(ex)
+    ex.lib.update({'re.compile': l_re_compile, 'Pattern.match': pattern_match('match'), 'Pattern.search': pattern_match('search'),
+                   'Pattern.fullmatch': pattern_match('fullmatch')})
     return ex
